@@ -155,6 +155,9 @@ theorem abs_stepSnapBegin {s : State} (h : Inv s) (k : Key) (t : Int) :
     touch_hot, touch_snap, touch_files]
   · -- idle: hot moves to the (empty) snapshot store
     rw [h.idle_snap hp]; simp [Log.get_nil]
+  · -- failed: hot is folded into the retried snapshot store
+    simp only [Log.get_nil, Option.none_or, Log.get_append]
+    cases Log.get s.hot k t <;> simp
 
 theorem inv_stepSnapBegin {s : State} (h : Inv s) : Inv (stepSnapBegin s).1 := by
   unfold stepSnapBegin
@@ -172,6 +175,7 @@ theorem inv_stepSnapBegin {s : State} (h : Inv s) : Inv (stepSnapBegin s).1 := b
     · exact h.cleared_snap
   · exact inv_touch h
   · exact inv_touch h
+  · constructor <;> intro h' <;> simp at h'
 
 theorem abs_stepSnapStep {s : State} (h : Inv s) (k : Key) (t : Int) :
     (stepSnapStep s).abs k t = s.abs k t := by
@@ -190,6 +194,7 @@ theorem abs_stepSnapStep {s : State} (h : Inv s) (k : Key) (t : Int) :
     | none => simp
     | some v => simp [h.replaced_le hp k t v hs]
   · simp only [State.abs_eq]
+  · rfl
 
 theorem inv_stepSnapStep {s : State} (h : Inv s) : Inv (stepSnapStep s) := by
   unfold stepSnapStep
@@ -208,6 +213,42 @@ theorem inv_stepSnapStep {s : State} (h : Inv s) : Inv (stepSnapStep s) := by
   · constructor <;> intro h' <;> simp at h' ⊢
   · constructor <;> intro h' <;> simp at h' ⊢
     exact h.cleared_snap hp
+  · exact h
+
+/-! a failing WriteSnapshot -/
+
+theorem stepSnapFail_cases (s : State) :
+    (stepSnapFail s).1 = s.touch ∨
+    (stepSnapFail s).1 = { (stepSnapBegin s).1 with phase := .idle, snapClosed := [] } ∧
+        (stepSnapBegin s).1.snap = [] ∧ (s.phase = .idle ∨ s.phase = .failed) ∨
+    (stepSnapFail s).1 = { (stepSnapBegin s).1 with phase := .failed } ∧ (s.phase = .idle ∨ s.phase = .failed) := by
+  unfold stepSnapFail
+  cases hp : s.phase <;> simp only
+  · by_cases he : (stepSnapBegin s).1.snap.isEmpty = true
+    · right; left; simp only [he, if_true]; exact ⟨trivial, List.isEmpty_iff.mp he, Or.inl trivial⟩
+    · right; right; simp only [he, Bool.false_eq_true, if_false]; exact ⟨trivial, Or.inl trivial⟩
+  · left; trivial
+  · left; trivial
+  · left; trivial
+  · left; trivial
+  · by_cases he : (stepSnapBegin s).1.snap.isEmpty = true
+    · right; left; simp only [he, if_true]; exact ⟨trivial, List.isEmpty_iff.mp he, Or.inr trivial⟩
+    · right; right; simp only [he, Bool.false_eq_true, if_false]; exact ⟨trivial, Or.inr trivial⟩
+
+theorem abs_stepSnapFail {s : State} (h : Inv s) (k : Key) (t : Int) :
+    (stepSnapFail s).1.abs k t = s.abs k t := by
+  rcases stepSnapFail_cases s with he | ⟨he, _, _⟩ | ⟨he, _⟩
+  · rw [he]; rfl
+  · rw [he, ← abs_stepSnapBegin h k t]; rfl
+  · rw [he, ← abs_stepSnapBegin h k t]; rfl
+
+theorem inv_stepSnapFail {s : State} (h : Inv s) : Inv (stepSnapFail s).1 := by
+  rcases stepSnapFail_cases s with he | ⟨he, hsn, _⟩ | ⟨he, _⟩
+  · rw [he]; exact inv_touch h
+  · rw [he]
+    constructor <;> intro h' <;> first | exact hsn | (simp at h')
+  · rw [he]
+    constructor <;> intro h' <;> simp at h'
 
 theorem abs_advance1 {s : State} (h : Inv s) (n : Nat) (k : Key) (t : Int) :
     (advance1 n s).abs k t = s.abs k t := by
